@@ -75,6 +75,8 @@ def build_nfa(spec):
 
 def build_pda(spec):
     delta = defaultdict(set)
+    for p, a, u in spec.get('stray_keys', ()):
+        pass    # a corrupted object is never rebuilt with its stray entries: constructors would refuse it
     shared = {}
     for p, a, u, T in spec['delta']:
         if spec.get('alias'):
@@ -165,11 +167,16 @@ def snapshot(obj):
             snap['stray_keys'] = stray
         return snap
     if isinstance(obj, PDA):
-        return {'kind': 'pda', 'Q': sorted(_s(q) for q in obj.Q), 'Sigma': sorted(_s(a) for a in obj.Sigma),
+        snap = {'kind': 'pda', 'Q': sorted(_s(q) for q in obj.Q), 'Sigma': sorted(_s(a) for a in obj.Sigma),
                 'Gamma': sorted(_s(a) for a in obj.Gamma),
                 'delta': sorted([_s(p), _s(a), _s(u), sorted([_s(q), _s(v)] for (q, v) in T)]
                                 for (p, a, u), T in obj.delta.items() if len(T) > 0),
                 'q0': _s(obj.q0), 'F': sorted(_s(q) for q in obj.F), 'eps': _s(obj.epsilon)}
+        stray = sorted([str(p), str(a), str(u)] for (p, a, u), T in obj.delta.items()
+                       if len(T) == 0 and (p not in obj.Q or (a not in obj.Sigma and a != obj.epsilon) or (u not in obj.Gamma and u != obj.epsilon)))
+        if stray:
+            snap['stray_keys'] = stray
+        return snap
     if isinstance(obj, TM):
         return {'kind': 'tm', 'Q': sorted(_s(q) for q in obj.Q), 'Sigma': sorted(_s(a) for a in obj.Sigma),
                 'Gamma': sorted(_s(a) for a in obj.Gamma),
